@@ -759,6 +759,8 @@ func wsSessionFor(pos, value string) *saml.Session {
 		UserSurname:           "sn-benign",
 		UserGivenName:         "gn-benign",
 		UserScopedAffiliation: "aff-benign@example.com",
+		// both the mail address and a different principal name: eduPersonPrincipalName must carry the latter
+		EduPersonPrincipalName: "eppn-benign@example.edu",
 		CustomAttributes: []saml.Attribute{{
 			FriendlyName: wsCustFN, Name: wsCustName, NameFormat: wsCustFormat,
 			Values: []saml.AttributeValue{{Type: "xs:string", Value: wsCustValue}},
